@@ -370,6 +370,20 @@ func (e *exec) field(objType string, obj *Obj, c *collected, path string) (strin
 			return e.nullAt(t, path, true)
 		}
 	}
+	// an executable directive on the field of the operation (@mark on FIELD) wraps the field-definition directives
+	if m := f.Directives.ForName("mark"); m != nil {
+		id := ""
+		if obj != nil {
+			id = obj.ID
+		}
+		switch e.w.Guard(5, id, f.Name) {
+		case KNull:
+			return e.nullAt(t, path, false)
+		case KError, KPanic:
+			e.fail(path)
+			return e.nullAt(t, path, true)
+		}
+	}
 	// field-definition directives wrap the resolver
 	if g := def.Directives.ForName("guard"); g != nil {
 		k := 0
